@@ -2,6 +2,7 @@ import Driver.Registry
 import Driver.Gated
 import Driver.Dispatch
 import Driver.FileSink
+import Driver.Sinks
 open Driver
 
 def main (args : List String) : IO UInt32 := do
@@ -12,4 +13,5 @@ def main (args : List String) : IO UInt32 := do
   | ["gated"] => loop stdin stdout Driver.Gated.stepLine {}; return 0
   | ["dispatch"] => loop stdin stdout Driver.Dispatch.stepLine {}; return 0
   | ["filesink"] => loop stdin stdout Driver.FileSink.stepLine {}; return 0
+  | ["sinks"] => loop stdin stdout Driver.Sinks.stepLine []; return 0
   | _ => IO.eprintln "usage: evldriver <model>"; return 2
